@@ -499,8 +499,26 @@ fn vdpa_ops(ctx: &mut Ctx, mem: &GuestMemoryMmap, l64: &[u64], l32: &[u32]) {
                 }
                 // a failing SET must not change the acknowledged set
                 ioctl_capture::answer(IoctlAnswer { rc: -1, errno: libc::EOPNOTSUPP, writeback: vec![] });
-                let _ = v.set_backend_features(!feat);
+                let before = v.get_backend_features_acked();
+                let r = v.set_backend_features(!feat);
                 let _ = ioctl_capture::take();
+                ctx.rep.evaluations += 1;
+                if r.is_ok() || v.get_backend_features_acked() != before {
+                    ctx.ret_mismatch("set_backend_features", json!("kernel refuses"), format!("result ok={} acked={:#x}", r.is_ok(), v.get_backend_features_acked()), format!("Err and acked unchanged ({before:#x})"));
+                }
+                // an IOTLB message sent now must still use the layout of the acknowledged set
+                {
+                    let m = VhostIotlbMsg { iova: 0x1000, size: 0x2000, userspace_addr: 0x3000, perm: VhostAccess::ReadWrite, msg_type: VhostIotlbType::Update };
+                    let fdx = v.as_raw_fd();
+                    let mut offx = unsafe { libc::lseek(fdx, 0, libc::SEEK_CUR) };
+                    let r = v.send_iotlb_msg(&m);
+                    let got = read_back(fdx, &mut offx, 72);
+                    let v2_before = before & (1 << lay("VHOST_BACKEND_F_IOTLB_MSG_V2")) != 0;
+                    ctx.rep.evaluations += 1;
+                    if r.is_err() || !iotlb_same(v2_before, &got, &iotlb_expected(v2_before, &m)) {
+                        ctx.rep.violation("C19:vdpa:send_iotlb_msg:layout-after-refused-backend-features", "after a refused VHOST_SET_BACKEND_FEATURES the IOTLB message is not written in the layout of the acknowledged features", json!({"check":"C19","op":"send_iotlb_msg after failed set_backend_features","v2_requested":!v2_before}));
+                    }
+                }
                 let _ = v.set_backend_features(feat);
                 ctx.check("set_backend_features", json!(feat), ioctl_capture::take(), Some(("VHOST_SET_BACKEND_FEATURES", Some(feat.to_ne_bytes().to_vec()))));
                 ctx.rep.evaluations += 1;
@@ -509,7 +527,8 @@ fn vdpa_ops(ctx: &mut Ctx, mem: &GuestMemoryMmap, l64: &[u64], l32: &[u32]) {
                 }
             }
             let fd2 = v.as_raw_fd();
-            let mut off2 = 0i64;
+            // SAFETY: lseek on our memfd.
+            let mut off2 = unsafe { libc::lseek(fd2, 0, libc::SEEK_CUR) };
             let perms = [VhostAccess::No, VhostAccess::ReadOnly, VhostAccess::WriteOnly, VhostAccess::ReadWrite];
             let types = [VhostIotlbType::Empty, VhostIotlbType::Miss, VhostIotlbType::Update, VhostIotlbType::Invalidate, VhostIotlbType::AccessFail, VhostIotlbType::BatchBegin, VhostIotlbType::BatchEnd];
             for (i, &perm) in perms.iter().enumerate() {
